@@ -152,8 +152,10 @@ class Interp:
                         d = self.reader.data
                     except RuntimeError:
                         return
-                    raise Violation(f"data before the first rewind returned {len(d)} bytes", case)
+                    raise Violation(f"data before the first rewind returned {d!r:.60} instead of raising", case)
                 d = self.reader.data
+                if not isinstance(d, (bytes, bytearray)):
+                    raise Violation(f"data is {d!r:.60}, not bytes", case)
                 if d != self.recorded:
                     raise Violation(
                         f"data holds {len(d) // self.bps} samples, expected the {len(self.recorded) // self.bps} "
